@@ -1245,4 +1245,40 @@ theorem cost_zero_mem (T : Sim3 ℝ) (P : List (Vec3 ℝ)) (h : cost T P P = 0) 
     · linarith
     · exact ih (by linarith) p hp
 
+
+/-! ## helpers of pass 5 (moved from Props) -/
+
+theorem apeCore_length_self (eps atol : ℝ) (alignFn : List (Vec3 ℝ) → List (Vec3 ℝ) → Sim3 ℝ) (et : EType) (mode : AlignMode)
+    (rp : List (SE3 ℝ)) : (apeCore eps atol alignFn et mode rp rp).length = rp.length := by
+  unfold apeCore; simp
+
+
+theorem transOf_origin_valid (alignFn : List (Vec3 ℝ) → List (Vec3 ℝ) → Sim3 ℝ) (rp ep : List (SE3 ℝ))
+    (hR : ∀ p ∈ rp, SE3.Valid p) (hE : ∀ p ∈ ep, SE3.Valid p) :
+    Sim3.Valid (transOf alignFn .origin rp ep) ∧ (transOf alignFn .origin rp ep).s = 1 := by
+  have hr : SE3.Valid (rp.headD SE3one) := by
+    cases rp with
+    | nil => exact Spline.SE3_valid_one
+    | cons r _ => exact hR r (by simp)
+  have he : SE3.Valid (ep.headD SE3one) := by
+    cases ep with
+    | nil => exact Spline.SE3_valid_one
+    | cons e _ => exact hE e (by simp)
+  simp only [transOf, originT]
+  exact ⟨⟨SE3_valid_mul _ _ hr (SE3_valid_inv _ he), by simp⟩, by simp⟩
+
+
+noncomputable def octaP : List (Vec3 ℝ) := [⟨1, 0, 0⟩, ⟨-1, 0, 0⟩, ⟨0, 1, 0⟩, ⟨0, -1, 0⟩, ⟨0, 0, 1⟩, ⟨0, 0, -1⟩]
+noncomputable def octaQ : List (Vec3 ℝ) :=
+  [⟨39 / 25, 98 / 25, 3⟩, ⟨11 / 25, 2 / 25, 3⟩, ⟨-23 / 25, 64 / 25, 3⟩, ⟨73 / 25, 36 / 25, 3⟩, ⟨1, 2, 5⟩, ⟨1, 2, 1⟩]
+noncomputable def octaA : Sim3 ℝ := ⟨⟨1, 2, 3⟩, ⟨0, 0, 3 / 5, 4 / 5⟩, 1⟩
+
+theorem cost_octa (t : Vec3 ℝ) (q : Quat ℝ) (hq : q.x * q.x + q.y * q.y + q.z * q.z + q.w * q.w = 1) :
+    cost ⟨t, q, 1⟩ octaP octaQ = 6 + 6 * ((t.x - 1) ^ 2 + (t.y - 2) ^ 2 + (t.z - 3) ^ 2)
+      + 32 * (q.x ^ 2 + q.y ^ 2 + (4 / 5 * q.z - 3 / 5 * q.w) ^ 2) := by
+  simp only [cost, octaP, octaQ, List.zipWith_cons_cons, List.zipWith_nil_right, List.sum_cons, List.sum_nil, Sim3Act]
+  lie_unfold
+  linear_combination (16 * (q.x * q.x + q.y * q.y + q.z * q.z) - 288 / 25) * hq
+
+
 end PP.Traj
